@@ -496,6 +496,13 @@ fn programs(family: &str) -> Vec<(String, Outcome)> {
             p("E :: enum\n    X,\nend\nstart :: fn do\n    E :: enum\n        X,\n    end\nend\n", Outcome::Reject);
             p("start :: fn do\nend\n// a comment after the last statement\n", Outcome::Accept);
             p("// only a comment\n", Outcome::Reject);
+            // a loop whose body is ended by `end` / `else` (fix 7596cb1: the first one panicked in debug builds)
+            p("start :: fn do\n    if true do loop false do end end\nend\n", Outcome::Accept);
+            p("start :: fn do\n    x := 0\n    if x > 1 do loop x < 5 x += 1 else do x = 0 end\nend\n", Outcome::Accept);
+            // import cycles: a file is read once, also when it does not parse
+            p("use main\nstart :: fn do\n    x := (1 +\nend\n", Outcome::Reject);
+            p("use other\nstart :: fn do\n    x := (1 +\nend\n//==file other.sy\nuse main\ny :: (\n", Outcome::Reject);
+            p("use other\nstart :: fn do\n    other.f()\nend\n//==file other.sy\nuse main\nf :: fn do\nend\n", Outcome::Accept);
             p("use math as start\n", Outcome::Reject);
             p("x :: 1\n", Outcome::Reject);
             p("start :: fn do\n    x := (1\nend\n", Outcome::Reject);
@@ -574,8 +581,11 @@ fn main() {
             std::process::exit(1);
         }
         println!("replay: the stored input behaves as specified on this tree");
+    } else if args.len() >= 3 && args[1] == "try" {
+        // developer helper: what does the compiler do with this one program?
+        println!("{:?}", compile(&args[2].replace("\\n", "\n")));
     } else {
-        eprintln!("usage: witness search <family>... | witness replay <family> <input>");
+        eprintln!("usage: witness search <family>... | witness replay <family> <input> | witness try <program>");
         std::process::exit(2);
     }
 }
